@@ -58,6 +58,17 @@ fn client_emit(world: &mut World) {
             CK::List => {
                 world.send_event(CList::of(seq));
             }
+            CK::Unit => match (cref, cref2) {
+                (Some(a), Some(b)) if a != b => {
+                    world.client_trigger_targets(CUnit, vec![a, b]);
+                }
+                (Some(a), _) => {
+                    world.client_trigger_targets(CUnit, a);
+                }
+                _ => {
+                    world.client_trigger(CUnit);
+                }
+            },
             CK::Map => match cref {
                 Some(ce) => {
                     world.send_event(CMap(seq, ce));
@@ -261,7 +272,8 @@ pub fn make_app_role(cfg: &Cfg, mismatch: bool, role: Role) -> App {
         .add_client_event::<CUnrel>(Channel::Unreliable)
         .add_mapped_client_event::<CMap>(Channel::Ordered)
         .add_client_trigger::<CTrig>(Channel::Ordered)
-        .add_client_event::<CList>(Channel::Ordered);
+        .add_client_event::<CList>(Channel::Ordered)
+        .add_client_trigger::<CUnit>(Channel::Ordered);
     if mismatch {
         app.replicate::<Extra>();
     }
@@ -358,6 +370,10 @@ pub fn make_app_role(cfg: &Cfg, mismatch: bool, role: Role) -> App {
         )
             .after(ServerSet::Receive),
     );
+    app.add_observer(|tr: Trigger<FromClient<CUnit>>, mut log: ResMut<ServerLog>| {
+        let target = tr.target();
+        log.0.push((CK::Unit, 0, tr.event().client, (target != Entity::PLACEHOLDER).then_some(target)));
+    });
     app.add_observer(|tr: Trigger<FromClient<CTrig>>, mut log: ResMut<ServerLog>| {
         let target = tr.target();
         log.0.push((CK::Trig, tr.event().event.0, tr.event().client, (target != Entity::PLACEHOLDER).then_some(target)));
